@@ -392,7 +392,30 @@ CARRY_IN = {
 }
 
 
+def ripple_functions(facts):
+    """{root: (gadget, returns_bits)} for every non-test function (other than the gadgets) whose async body calls the
+    one-bit adder / subtractor: the ripple circuits, whatever they are called"""
+    out = {}
+    for root in sorted(facts.by_root):
+        if not root.startswith("protocol::ipa_prf::boolean_ops::") or facts.is_test_path(root):
+            continue
+        if root.endswith("::bit_adder") or root.endswith("::bit_subtractor"):
+            continue
+        b = closure_of(facts, root)
+        if b is None:
+            continue
+        gs = [F.callee(t)[0] for bb, t in b.calls() if re.search(r"::(bit_adder|bit_subtractor)$", F.callee(t)[0] or "")]
+        if gs:
+            _, pe = ok_payload(b)
+            unit = pe is not None and pe[0] == "agg" and pe[1] == "tuple" and not pe[2]
+            out[root] = (gs[0].split("::")[-1], not unit, len(gs))
+    return out
+
+
 def wiring(ctx, facts):
+    RIPPLES = ripple_functions(facts)
+    ripple_rx = re.compile("(" + "|".join(re.escape(r) for r in RIPPLES) + ")$") if RIPPLES else re.compile(r"$^")
+    with_bits = [r.split("::")[-1] for r, v in RIPPLES.items() if v[1]]
     ctx.rule("WIRE-carry: the carry handed to the ripple circuit by each entry point has the value of the table (derived from two's-complement subtraction / comparison); WIRE-result: what each entry point returns; WIRE-loop: zip(x, y.chain(repeat(ZERO))).enumerate(), narrow(S::from(i)), caller's carry threaded, outputs pushed in order")
     for root, (want, why) in CARRY_IN.items():
         name = root.split("::")[-1]
@@ -401,16 +424,20 @@ def wiring(ctx, facts):
             ctx.missing("WIRE-carry", name)
             continue
         ctx.count(bodies=1)
-        cs = [(bb, t) for bb, t in b.calls() if re.search(r"(addition_circuit|subtraction_circuit)$", F.callee(t)[0] or "")]
+        cs = [(bb, t) for bb, t in b.calls() if ripple_rx.search(F.callee(t)[0] or "")]
         if len(cs) != 1:
             ctx.missing("WIRE-carry", f"{name}: single call of the ripple circuit")
             continue
         cbb, ct = cs[0]
         v = const_bit(flow.expr_of(b, ct["args"][4], max_depth=30))
         ctx.ob("WIRE-carry", f"{name}:carry-in", v == want, f"carry-in {want}: {why}" if v == want else f"carry-in is {v if v is not None else 'not a constant'}, expected {want} ({why}); equal operands / exact borrow are decided by this bit", site_of(b, cbb))
-        kind = "subtraction_circuit" if name in ("compare_geq", "compare_gt", "integer_sub", "integer_sat_sub") else "addition_circuit"
-        okk = (F.callee(ct)[0] or "").endswith(kind)
-        ctx.ob("WIRE-carry", f"{name}:circuit", okk, f"uses {kind}" if okk else f"{name} runs the wrong ripple circuit", site_of(b, cbb))
+        kind = "bit_subtractor" if name in ("compare_geq", "compare_gt", "integer_sub", "integer_sat_sub") else "bit_adder"
+        rip = RIPPLES[F.callee(ct)[0]]
+        okk = rip[0] == kind and len(ct["args"]) == 5
+        ctx.ob("WIRE-carry", f"{name}:circuit", okk, f"runs a ripple of {kind}" if okk else f"{name} runs the wrong ripple circuit ({rip[0]})", site_of(b, cbb))
+        if name not in ("compare_geq", "compare_gt"):
+            ctx.ob("WIRE-carry", f"{name}:circuit-yields-bits", rip[1], "the circuit returns its output bits" if rip[1] else f"{name} needs the circuit's output bits but calls a carry-only ripple", site_of(b, cbb))
+        bits_rx = "|".join(re.escape(x) for x in with_bits) or "$^"
         # operand order: (x, y) of the entry point go to (x, y) of the circuit
         xs, ys = str(flow.expr_of(b, ct["args"][2], max_depth=20)), str(flow.expr_of(b, ct["args"][3], max_depth=20))
         pn = params(facts, root)
@@ -435,7 +462,7 @@ def wiring(ctx, facts):
                 cond_ok = bool(malsec._base_locals(b, t["args"][2]) & carry_locals)
                 tv = str(flow.expr_of(b, t["args"][3], max_depth=60))
                 fv = const_bit(flow.expr_of(b, t["args"][4], max_depth=20))
-                ok = cond_ok and "subtraction_circuit" in tv and fv == 0 and sel[0][0] in b.reachable(cbb)
+                ok = cond_ok and re.search(bits_rx, tv) is not None and fv == 0 and sel[0][0] in b.reachable(cbb)
             ctx.ob("WIRE-result", "integer_sat_sub:select(carry, result, ZERO)", ok, "no underflow (carry 1) => difference, else 0" if ok else "saturating subtraction does not select (carry ? difference : 0)", site_of(b, sel[0][0]) if sel else site_of(b))
         elif name == "integer_sat_add":
             orr = [(bb, t) for bb, t in b.calls() if (F.callee(t)[0] or "").endswith("or::bool_or")]
@@ -449,7 +476,7 @@ def wiring(ctx, facts):
                 for bb2, t2 in b.calls():
                     if (F.callee(t2)[0] or "").endswith("iter::repeat_n") and malsec._base_locals(b, t2["args"][0]) & carry_locals:
                         rep_carry = True
-                ok = "addition_circuit" in av and rep_ok and rep_carry and orr[0][0] in b.reachable(cbb)
+                ok = re.search(bits_rx, av) is not None and rep_ok and rep_carry and orr[0][0] in b.reachable(cbb)
             ctx.ob("WIRE-result", "integer_sat_add:or(result, carry)", ok, "every sum bit is OR-ed with the carry out (all ones on overflow)" if ok else "saturating addition does not OR every result bit with the final carry", site_of(b, orr[0][0]) if orr else site_of(b))
         elif name == "integer_add":
             ok = False
@@ -458,7 +485,7 @@ def wiring(ctx, facts):
                 if r["k"] == "agg" and r.get("vn") == "Ok" and r.get("adt") == "std::result::Result":
                     e = flow.expr_of(b, r["ops"][0], max_depth=60)
                     if e[0] == "agg" and e[1] == "tuple" and len(e[2]) == 2:
-                        ok = "addition_circuit" in str(e[2][0]) and bb in b.reachable(cbb)
+                        ok = re.search(bits_rx, str(e[2][0])) is not None and bb in b.reachable(cbb)
                         # second component: the carry local
                         for bb2, idx2, s2 in b.iter_assigns():
                             if s2["r"]["k"] == "agg" and s2["r"].get("kind", s2["r"].get("adt")) in ("tuple", None) and s2["p"] == [F.op_local(r["ops"][0])]:
@@ -467,10 +494,11 @@ def wiring(ctx, facts):
         elif name == "integer_sub":
             e = str(flow.expr_of(b, {"cp": [0]}, max_depth=60))
             obb2, pe = ok_payload(b)
-            ok = "subtraction_circuit" in e or (pe is not None and "subtraction_circuit" in str(pe))
+            ok = re.search(bits_rx, e) is not None or (pe is not None and re.search(bits_rx, str(pe)) is not None)
             ctx.ob("WIRE-result", "integer_sub:returns-difference", ok, "returns the circuit's bits" if ok else "integer_sub does not return the subtraction circuit's output", site_of(b))
     # ---- loops
-    for root, gadget in ((ADD + "addition_circuit", "bit_adder"), (SUB + "subtraction_circuit", "bit_subtractor")):
+    ctx.floor("WIRE-loop", "ripple circuits (functions looping over a one-bit gadget)", len(RIPPLES), 2)
+    for root, (gadget, returns_bits, ncalls) in sorted(RIPPLES.items()):
         name = root.split("::")[-1]
         b = closure_of(facts, root)
         if b is None:
@@ -497,6 +525,8 @@ def wiring(ctx, facts):
         ctx.ob("WIRE-loop", f"{name}:narrow(bit index)", oki, "each bit runs in its own step S::from(i)" if oki else "the per-bit context is not narrowed with the enumerate index (two bits would share a step / PRSS index)", site_of(b, gbb))
         okc = a[4] == ("upvar", pn.get(5))
         ctx.ob("WIRE-loop", f"{name}:carry-threaded", okc, "the caller's carry is threaded through every bit" if okc else "the gadget does not receive the circuit's own carry reference", site_of(b, gbb))
+        if not returns_bits:
+            continue        # a carry-only ripple has no output bits to order
         ps = [(bb, t) for bb, t in b.calls() if re.search(r"BitDecomposed::<S>::push$", F.callee(t)[0] or "")]
         okp = len(ps) == 1 and gadget in str(flow.expr_of(b, ps[0][1]["args"][1], max_depth=60)) and "BitDecomposed::<S>::with_capacity" in str(flow.expr_of(b, ps[0][1]["args"][0], max_depth=20))
         _, pe = ok_payload(b)
@@ -518,7 +548,7 @@ def loop_item(e):
             it = it[2][0]
         else:
             return (False, tail)
-    if not (it[0] == "call" and it[1].endswith("Iterator::zip")):
+    if not (it[0] == "call" and (it[1].endswith("Iterator::zip") or it[1] == "std::iter::zip")):
         return (False, tail)
     xa, yb = it[2]
     def slice_iter(z, name):
